@@ -19,7 +19,7 @@ ASSUMPTIONS = ["symmetric h1 per spin, Cholesky matrices, rdm1", "both spins pre
 
 def tasks(tier):
     S = "contracts.series"
-    t = [(S, "free_step", dict(norb=2, nu=1, nd=1, nchol=1)), (S, "free_step", dict(norb=2, nu=2, nd=1, nchol=1)), (S, "free_bookkeeping", {}),
+    t = [(S, "free_step", dict(norb=2, nu=1, nd=1, nchol=1)), (S, "free_step", dict(norb=2, nu=2, nd=1, nchol=1)), (S, "free_bookkeeping", {}), (S, "free_bookkeeping", dict(norb=3, nu=2, nd=2)),
          (S, "taylor", dict(n_exp_terms=6)), (S, "taylor", dict(n_exp_terms=2)), (S, "taylor", dict(n_exp_terms=10)), ("contracts.sampler_eq", "free_block", {}), (S, "c05_canary", {})]
     t += [("contracts.allsizes", "taylor_allsizes", dict(n_exp_terms=6)), ("contracts.allsizes", "taylor_allsizes", dict(n_exp_terms=10))]      # ALL norb / nocc (tensor normal form, scan unrolled)
     if tier == "thorough":
@@ -30,7 +30,7 @@ def tasks(tier):
 def post(obs, tier, rep):
     """native replay of the bookkeeping obligations: qr_vmap_uhf norm factors vs numpy QR on an open-shell pair of blocks"""
     for o in obs:
-        if o["status"] == "refuted" and o["kind"] != "canary" and o["name"] in ("C05.fp.norm", "C05.fp.overlap", "C05.fp.walkers") and not o.get("replayed"):
+        if o["status"] == "refuted" and o["kind"] != "canary" and o["name"].split("[")[0] in ("C05.fp.norm", "C05.fp.overlap", "C05.fp.walkers") and not o.get("replayed"):
             try:
                 import numpy as np
                 from contracts import native
